@@ -45,7 +45,7 @@ def main():
     old_meta = {}
     if os.path.exists(os.path.join(dst, "meta.json")):
         old_meta = json.load(open(os.path.join(dst, "meta.json")))
-    for k in ("summary", "needs", "first_verdict_with_committed_check"):
+    for k in ("summary", "needs", "first_verdict_with_committed_check", "known_blind_spot"):
         if k in old_meta:
             meta[k] = old_meta[k]
     if "--skip-tests" in flags:  # the suite result of the earlier full evaluation still stands (same patch, same tree)
